@@ -234,12 +234,13 @@ V_C18(a, o) ==
       IF o.it1.exc # "none" THEN VViol("sorted-dataset-raises")
       ELSE IF ~IsPermOf(out, inV) THEN VViol("not-a-permutation-of-the-input")
       ELSE IF a.key # "none" /\ \E j \in 1..(Len(out) - 1) :
-                 IF a.rev THEN KeyFn(a.key, out[j]) < KeyFn(a.key, out[j + 1])
-                 ELSE KeyFn(a.key, out[j]) > KeyFn(a.key, out[j + 1])
+                 \* (monotone in the order of the sort function handed in)
+                 IF a.rev THEN IntLessBy(Sfn(a), KeyFn(a.key, out[j]), KeyFn(a.key, out[j + 1]))
+                 ELSE IntLessBy(Sfn(a), KeyFn(a.key, out[j + 1]), KeyFn(a.key, out[j]))
         THEN VViol("sort-keys-not-monotone")
       ELSE IF a.key = "none" /\ (~o.keys.ok \/ \E j \in 1..(Len(o.keys.ks) - 1) :
-                 IF a.rev THEN StrLess(o.keys.ks[j], o.keys.ks[j + 1])
-                 ELSE StrLess(o.keys.ks[j + 1], o.keys.ks[j]))
+                 IF a.rev THEN StrLessBy(Sfn(a), o.keys.ks[j], o.keys.ks[j + 1])
+                 ELSE StrLessBy(Sfn(a), o.keys.ks[j + 1], o.keys.ks[j]))
         THEN VViol("example-keys-not-in-sort-order")
       ELSE IF keyed /\ ~Refusal(o.itk) /\ (o.itk.exc # "none" \/ ~IsPermOf(o.itk.items, inP))
         THEN VViol("keys-not-attached-to-their-examples")
